@@ -167,6 +167,8 @@ class Check:
         self._distinct = set()
         kf = os.path.join(VERIF, 'known_findings.json')
         allk = json.load(open(kf)) if os.path.exists(kf) else []
+        for extra in sorted(glob.glob(os.path.join(VERIF, 'known_findings.d', '*.json'))):
+            allk += json.load(open(extra))
         self.known = [k for k in allk if k.get('property') == pid and k.get('status') == 'open']
         self.fixed = [k for k in allk if k.get('property') == pid and k.get('status') == 'fixed']
         self.known_seen = {}
